@@ -45,6 +45,14 @@ def resetsConnected (m : M) : Base → Bool
   | .setSpaInfo _ _ => m.state == .CONNECTED
   | _ => false
 
+/-- the shape of finding D7, read off the regenerated table: `async_reset` executes `self._facade = None` before
+`await self._spa.disconnect()` (whose RUNNING_SPA_DISCONNECTED event announces the teardown) -/
+def resetClearsFacadeFirst (T : Table) : Bool :=
+  let ops := T.resetProg.flatMap (·.ops)
+  match ops.findIdx? (· == .clearFacade), ops.findIdx? (· == .spaDisconnect) with
+  | some i, some j => i < j
+  | _, _ => false
+
 /-- at every delivery the status sensor (when it exists) shows the state the client sees -/
 def deliveryMirrors (out : List Delivered) : Bool := out.all fun d => !d.sensor || d.status == some d.state
 
@@ -69,10 +77,12 @@ def resetLands (m : M) (b : Base) (r : RunRes) : Bool :=
   | .setSpaInfo i n => idleClean m r.m && r.outcome == .done && r.m.ident == i && r.m.name == n
   | _ => true
 
-def callOk (m : M) (b : Base) (r : RunRes) : Bool :=
+/-- every per-call clause.  The teardown clause is the FULL one unless the table has the shape of finding D7, in which
+case it is excused exactly for a reset of a CONNECTED manager -/
+def callOk (T : Table) (m : M) (b : Base) (r : RunRes) : Bool :=
   r.outcome != .outOfFuel && (r.outcome == .done || r.outcome == .raised) && phasesClosed r.out && readyIffEnter m r &&
-  readySample r.out && monitorsOk r.out && (resetsConnected m b || teardownHasFacade r.out) && deliveryMirrors r.out &&
-  statusAfter m r && good r.m && resetLands m b r
+  readySample r.out && monitorsOk r.out && ((resetClearsFacadeFirst T && resetsConnected m b) || teardownHasFacade r.out) &&
+  deliveryMirrors r.out && statusAfter m r && good r.m && resetLands m b r
 
 /-! ## the certificate -/
 
@@ -83,7 +93,7 @@ def reachList : List M := reachChunks.flatten
 def edgeOk (T : Table) (m : M) (b : Base) (j : Nat) : Bool :=
   !enabled m b ||
   (let r := stepB T m b
-   chunkAt reachChunks j == some r.m && callOk m b r)
+   chunkAt reachChunks j == some r.m && callOk T m b r)
 
 def rowOk (T : Table) (m : M) (row : List Nat) : Bool :=
   row.length == (allBase T).length && ((allBase T).zip row).all fun p => edgeOk T m p.1 p.2
@@ -121,7 +131,7 @@ theorem chunkAt_mem (cs : List (List M)) (j : Nat) (m : M) (h : chunkAt cs j = s
 
 /-- the one-step obligation, for every state of `R` and every enabled call of the alphabet -/
 theorem edge (m : M) (b : Base) (hm : m ∈ reachList) (hb : b ∈ allBase table) (he : enabled m b = true) :
-    (stepB table m b).m ∈ reachList ∧ callOk m b (stepB table m b) = true := by
+    (stepB table m b).m ∈ reachList ∧ callOk table m b (stepB table m b) = true := by
   have h := edges_ok
   rw [Bool.and_eq_true] at h
   obtain ⟨hl, hall⟩ := h
